@@ -2,9 +2,9 @@ use std::any::Any;
 use std::fmt;
 use std::sync::atomic::{AtomicBool, Ordering};
 use std::sync::Arc;
-use std::thread::Result;
+use std::thread::{self, Result};
 
-use crate::coroutine_impl::Coroutine;
+use crate::coroutine_impl::{current_cancel_data, is_coroutine, Coroutine};
 use crate::sync::{AtomicOption, Blocker};
 use generator::Error;
 
@@ -45,7 +45,25 @@ impl Join {
     }
 
     fn wait(&self) {
-        if self.state.load(Ordering::Acquire) {
+        if !self.state.load(Ordering::Acquire) {
+            return;
+        }
+
+        // when the waiter is a coroutine that is unwinding by a cancel, every park
+        // returns at once. but the coroutine we join (e.g. a scoped one) may still
+        // use our stack, so disable the cancel to really wait until it's done
+        let cancel = if thread::panicking() && is_coroutine() {
+            Some(current_cancel_data())
+        } else {
+            None
+        };
+        if let Some(c) = cancel {
+            c.disable_cancel();
+        }
+
+        // a park with the cancel disabled could return by a cancel request
+        // make sure we only return when the coroutine is really done
+        while self.state.load(Ordering::Acquire) {
             let cur = Blocker::current();
             // register the blocker first
             self.to_wake.store(cur.clone());
@@ -56,6 +74,10 @@ impl Join {
             } else {
                 self.to_wake.take();
             }
+        }
+
+        if let Some(c) = cancel {
+            c.enable_cancel();
         }
     }
 }
